@@ -362,22 +362,52 @@ def keep_story(k0, k1, k2, k3, final_nl):
     removable -= shebang_lines
     out_lines = out.split("\n")
     got = _nonblank(out_lines)
+
+    def block_problem(inserted):
+        """None if `inserted` is exactly one header block of the file's style holding the new information."""
+        info = read("\n".join(inserted))
+        marker_ok = info is not None and ((NEW_C in info[0]) if REQUEST in ("full", "copyright-only") else (NEW_L in info[1]) if REQUEST == "licence-only" else (NEW_F in info[2]))
+        if not marker_ok:
+            return "the inserted block is not the new header", {"inserted": inserted[:6]}
+        if STYLE is not cm.EmptyCommentStyle:
+            uses_multi = MULTI or not STYLE.can_handle_single()
+            if not uses_multi:
+                stray = [l for l in inserted if not is_own_comment_line(l)]
+            else:
+                ends = [n for n, l in enumerate(inserted) if l.rstrip().endswith(STYLE.MULTI_LINE.end)]
+                good = bool(inserted) and inserted[0].startswith(STYLE.MULTI_LINE.start) and bool(ends) and ends[0] == len(inserted) - 1
+                stray = [] if good else (inserted[(ends[0] + 1) :] if ends and ends[0] < len(inserted) - 1 else ["<not one terminated block>"])
+            if stray:
+                return "stray text was left next to the header", {"stray": stray[:3]}
+        return None
+
     # got must be the kept lines with one contiguous block (the header) inserted; whether the old block was
-    # found and replaced is not this property's business (C09/C10), so both readings are accepted
-    fit = None
+    # found and replaced is not this property's business (C09/C10), so both readings are accepted; where the
+    # split between "kept before" and "kept after" is ambiguous every split is tried
+    fit, problem = None, None
     for rem in (removable, set()):
         kept = [l for i, l in enumerate(lines) if i not in rem]
         want = _nonblank(kept)
-        i = 0
-        while i < len(want) and i < len(got) and got[i] == want[i]:
-            i += 1
-        j = 0
-        while j < len(want) - i and j < len(got) - i and got[len(got) - 1 - j] == want[len(want) - 1 - j]:
-            j += 1
-        if i + j >= len(want):
-            fit = (i, j, kept)
+        if len(got) < len(want):
+            continue
+        maxi = 0
+        while maxi < len(want) and got[maxi] == want[maxi]:
+            maxi += 1
+        for i in range(maxi, -1, -1):
+            j = len(want) - i
+            if j and got[len(got) - j :] != want[i:]:
+                continue
+            inserted = got[i : len(got) - j]
+            pr = block_problem(inserted)
+            if pr is None:
+                fit = (i, j, kept)
+                break
+            problem = problem or pr
+        if fit:
             break
     if fit is None:
+        if problem is not None:
+            return problem[0], items, text, out, problem[1]
         return "a line outside the header block was changed, dropped or reordered", items, text, out, {"input_nonblank": _nonblank(lines), "output_nonblank": got}
     i, j, kept = fit
     # what precedes the header in the input (everything up to the replaced block; or the shebang run when the header
@@ -389,11 +419,6 @@ def keep_story(k0, k1, k2, k3, final_nl):
         before_in = "\n".join(lines[x] for x in sorted(shebang_lines))
     if before_in.strip() and not out.startswith(before_in.rstrip()):
         return "text before the header was changed (leading blank lines / indentation)", items, text, out, {"before": before_in}
-    inserted = got[i : len(got) - j]
-    info = read("\n".join(inserted))
-    marker_ok = info is not None and ((NEW_C in info[0]) if REQUEST in ("full", "copyright-only") else (NEW_L in info[1]) if REQUEST == "licence-only" else (NEW_F in info[2]))
-    if not marker_ok:
-        return "the inserted block is not the new header", items, text, out, {"inserted": inserted}
     # shebang lines stay first
     sb = [lines[x] for x in sorted(shebang_lines)]
     if sb and got[: len(sb)] != sb:
